@@ -13,6 +13,7 @@ import re
 
 from ..core import rule, AnalysisError
 from ..engine import cfg as cfgmod, flow, emit
+from ..engine import pattern as pm
 from ..engine.facts import dotted, const, src, walk_func, str_value, enclosing_stmt, ancestors
 from . import skeletons as sk
 from .common import calls, stmt_nodes, param_names, kwmap
@@ -167,9 +168,9 @@ def registry(ctx):
         fn = db.func("template.Template." + prop)
         ctx.check("_get_module_info_from_callable(self.callable_).%s" % prop in src(fn), "lookup:" + prop, db.where(fn), "Template.%s is not resolved through the registry" % prop, "registry lookup by the callable's module")
     gm = db.func("template._get_module_info_from_callable")
-    ctx.check("callable_.__globals__['__name__']" in src(gm), "lookup-key", db.where(gm), "registry is not keyed by the module's __name__", "keyed by module __name__")
+    ctx.check(pm.has(gm, "$c.__globals__['__name__']"), "lookup-key", db.where(gm), "registry is not keyed by the module's __name__", "keyed by module __name__")
     reg = db.func("template.ModuleInfo.__init__")
-    ctx.check("self._modules[module.__name__]" in src(reg), "register-key", db.where(reg), "ModuleInfo does not register under module.__name__", "registered under module.__name__")
+    ctx.check(pm.has(reg, "self._modules[$m.__name__]"), "register-key", db.where(reg), "ModuleInfo does not register under module.__name__", "registered under module.__name__")
 
 
 @rule("C08.identity-key", min_instances=2, props=["C17"])
@@ -194,11 +195,11 @@ def identity_key(ctx):
     ctx.require(n >= 3, "module_id assignments not found (%d)" % n)
     # carriers: module name and cache id derive from module_id
     ct = db.func("template._compile_text")
-    ctx.check("types.ModuleType(cid)" in src(ct) and "identifier = template.module_id" in src(ct), "carrier:ModuleType", db.where(ct), "in-memory module is not named by module_id", "ModuleType(module_id)")
+    ctx.check(pm.has(ct, "$i = $t.module_id\n...\n$m = types.ModuleType($c)") and (pm.has(ct, "$c = $i\n$m = types.ModuleType($c)") or pm.has(ct, "$i = $t.module_id\n$m = types.ModuleType($i)")), "carrier:ModuleType", db.where(ct), "in-memory module is not named by module_id", "ModuleType(module_id)")
     cf = db.func("template.Template._compile_from_file")
     ctx.check(all(src(c.args[0]) == "self.module_id" for c in calls(cf, "compat.load_module")), "carrier:load_module", db.where(cf), "file modules are not loaded under module_id", "load_module(module_id, path)")
     ci = db.func("cache.Cache.__init__")
-    ctx.check("self.id = template.module.__name__" in src(ci), "carrier:Cache.id", db.where(ci), "Cache.id is not the module name", "Cache.id = module.__name__")
+    ctx.check(pm.has(ci, "self.id = $t.module.__name__"), "carrier:Cache.id", db.where(ci), "Cache.id is not the module name", "Cache.id = module.__name__")
 
 
 def _emitted_module_names(S):
@@ -263,10 +264,10 @@ def render_prefix(ctx):
     f = [n for n in walk_func(init) if isinstance(n, ast.BinOp) and isinstance(n.left, ast.Constant) and n.left.value == P + "%s"]
     ctx.check(bool(f) and src(f[0].right) == "node.funcname", "codegen.name", db.where(init), "top-level callables are not named render_<funcname>", "render_%s % node.funcname")
     dd = db.func("codegen._GenerateRenderMethod.write_def_decl")
-    ctx.check("'return render_%s(%s)'" in src(dd), "codegen.stub", db.where(dd), "def stubs do not call render_<name>", "stub calls render_%s")
+    ctx.check(pm.has(dd, "'return render_%s(%s)' % $_"), "codegen.stub", db.where(dd), "def stubs do not call render_<name>", "stub calls render_%s")
     for meth in ("has_def", "get_def", "_get_def_callable"):
         fn = db.func("template.Template." + meth)
-        ctx.check("'render_%s' % name" in src(fn), "Template." + meth, db.where(fn), "%s does not look up 'render_%%s' %% name" % meth, "render_%s % name")
+        ctx.check(pm.has(fn, "'render_%s' % $n"), "Template." + meth, db.where(fn), "%s does not look up 'render_%%s' %% name" % meth, "render_%s % name")
     ld = db.func("template.Template.list_defs")
     t = src(ld)
     ok = ("i[:%d] == '%s'" % (len(P), P)) in t and ("i[%d:]" % len(P)) in t or "startswith('render_')" in t and ("[%d:]" % len(P)) in t
@@ -278,7 +279,7 @@ def render_prefix(ctx):
         fn = db.func("cache.Cache." + meth)
         ctx.check(src(fn).count(pat) >= 2, "Cache." + meth, db.where(fn), "%s does not use %s for key and defname" % (meth, pat), pat)
     tn = db.func("runtime.TemplateNamespace._get_star")
-    ctx.check("self.template.module._exports" in src(tn) and "_get_def_callable(key)" in src(tn), "exports", db.where(tn), "namespace star-import does not resolve _exports through _get_def_callable", "_exports -> render_<name>")
+    ctx.check(pm.has(tn, "self.template.module._exports") and pm.has(tn, "self.template._get_def_callable($k)"), "exports", db.where(tn), "namespace star-import does not resolve _exports through _get_def_callable", "_exports -> render_<name>")
     body = [n for n in walk_func(init) if isinstance(n, ast.Assign) and src(n.targets[0]) == "name" and isinstance(n.value, ast.Constant)]
     ti = db.func("template.Template.__init__")
     ctx.check(bool(body) and body[0].value.value == "render_body" and "self.module.render_body" in src(ti), "body-name", db.where(ti), "body callable name disagrees between codegen and Template", "render_body")
@@ -330,7 +331,7 @@ def one_pipeline(ctx):
     rn = db.func("runtime._render")
     ctx.check(bool(calls(rn, "_render_context")), "entry:_render->_render_context", db.where(rn), "_render does not funnel into _render_context", "_render -> _render_context")
     gd = db.func("template.Template.get_def")
-    ctx.check("DefTemplate(self, getattr(self.module, 'render_%s' % name))" in src(gd), "entry:get_def", db.where(gd), "get_def does not wrap the module's render_<name>", "DefTemplate(self, module.render_<name>)")
+    ctx.check(pm.has(gd, "DefTemplate(self, getattr(self.module, 'render_%s' % $n))"), "entry:get_def", db.where(gd), "get_def does not wrap the module's render_<name>", "DefTemplate(self, module.render_<name>)")
     dt = db.func("template.DefTemplate.__init__")
     inherited = {dotted(s.targets[0])[5:] for s in walk_func(dt) if isinstance(s, ast.Assign) and (dotted(s.targets[0]) or "").startswith("self.")}
     for a in ("output_encoding", "encoding_errors", "format_exceptions", "error_handler", "enable_loop", "lookup", "module"):
@@ -350,4 +351,4 @@ def one_pipeline(ctx):
     # ModuleTemplate takes identity from the module
     mt = db.func("template.ModuleTemplate.__init__")
     t = src(mt)
-    ctx.check("self.uri = module._template_uri" in t and "self.input_encoding = module._source_encoding" in t and "self.enable_loop = module._enable_loop" in t, "ModuleTemplate.identity", db.where(mt), "ModuleTemplate does not take uri / encoding / enable_loop from the module", "identity from module attributes")
+    ctx.check(pm.has(mt, "self.uri = $m._template_uri") and pm.has(mt, "self.input_encoding = $m._source_encoding") and pm.has(mt, "self.enable_loop = $m._enable_loop"), "ModuleTemplate.identity", db.where(mt), "ModuleTemplate does not take uri / encoding / enable_loop from the module", "identity from module attributes")
